@@ -135,7 +135,11 @@ Definition do_one (d : dimport) (reg : list centry) (names : list string) (o : p
         let entry := {| ce_sel := sel; ce_obj := i; ce_method := is_method; ce_src := Some (import_source d names); ce_home := ("", "") |} in
         let prev := match find_obj i reg with Some e => [(ce_sel e, sel)] | None => [] end in
         match find_sel sel reg with
-        | Some e => if Nat.eqb (ce_obj e) i then DOk (replace_entry sel entry reg, sel, prev) else DErr "ValueError"
+        (* re-registration under the same selector: _INVERSE_REGISTRY[obj] now denotes THIS registration, i.e. it
+           becomes the most recent one (find_obj reads the list from the right) *)
+        | Some e => if Nat.eqb (ce_obj e) i
+                    then DOk (filter (fun x => negb (String.eqb (ce_sel x) sel)) reg ++ [entry], sel, prev)
+                    else DErr "ValueError"
         | None => DOk (reg ++ [entry], sel, prev)
         end
     end.
